@@ -64,6 +64,8 @@ def case_strategy(draw, file_only=False):
         if len(dx) >= len(dy): dx = dx[:-1]
         else: dy = dy[:-1]
     dz = draw(_spacing(2, 14, 0.5, 200.0, orders=1.0 if file_only else 2.0))
+    high = (not file_only) and draw(st.integers(0, 7)) == 0
+    if high: dz = draw(_spacing(2, 14, 0.1, 1.0, orders=1.0))      # thin layers, far above (or below) the datum: see `org` below
     big = draw(st.sampled_from([0, 0, 0, 3, 1] if file_only else [0, 0, 1, 1, 2, 3]))
     if big == 0: org = [0., 0., 0.]
     elif big == 3: org = [-dx[0] / 2, -dy[0] / 2, draw(st.sampled_from([0.0, dz[0], 100.0]))]
@@ -71,6 +73,7 @@ def case_strategy(draw, file_only=False):
                           draw(st.integers(-2000, 3000)) * 0.5]
     else: org = [draw(st.integers(1000000, 9000000)) * 1.0 + 0.25, draw(st.integers(1000000, 9000000)) * 1.0 + 0.5,
                  draw(st.integers(-500, 2500)) * 1.0]
+    if high: org = [org[0], org[1], draw(st.sampled_from([30000.0, 2e5, -45000.0, 8848.0, 1e6]))]
     angle = draw(st.one_of(st.sampled_from(ANGLES), st.floats(-360.0, 360.0).map(lambda a: round(a, 3))))
     skind = draw(st.sampled_from(['flat', 'stepped', 'stepped', 'sloping', 'above']))
     surf = {'kind': skind}
@@ -91,7 +94,7 @@ def case_strategy(draw, file_only=False):
     if draw(st.integers(0, 3)) == 0:
         for _ in range(draw(st.integers(1, 3))):
             bnd.append({'vol': draw(st.sampled_from(['zero', 'huge', 'atmos'])),
-                        'at': draw(st.sampled_from(['bottom', 'side1', 'side2', 'row1', 'row2'])),
+                        'at': draw(st.sampled_from(['bottom', 'bottom1', 'bottom1', 'side1', 'side2', 'row1', 'row2'])),
                         'idx': draw(st.integers(0, 500)), 'first': draw(st.booleans())})
     return {'dx': dx, 'dy': dy, 'dz': dz, 'origin': org, 'conv': conv, 'atmos': draw(st.sampled_from([0, 1, 2])),
             'justify': draw(st.sampled_from(['r', 'r', 'l'])), 'chars': draw(st.sampled_from(['lower', 'lower', 'upper'])),
@@ -225,8 +228,17 @@ def add_boundary(grid, g, case, R):
     nx, ny = len(case['dx']), len(case['dy'])
     names, below = [], set()
     specs = sorted(case['boundary'], key=lambda s: s['vol'] == 'zero')      # zero-volume (inactive) blocks last
-    for k, s in enumerate(specs):
-        nm = 'Q%s%2d' % ('qz', 90 + k)
+    # 'bottom1': below EVERY column that consists of its bottom block only (up to 8 of them) - the block such a column has
+    # above it is then an atmosphere block and the one below it a boundary block, both in direction 3
+    expanded = []
+    for s in specs:
+        if s['at'] == 'bottom1':
+            ones = [i for i, c in enumerate(g.columnlist) if c.num_layers == 1][:8]
+            expanded += [dict(s, at='bottom', idx=i) for i in ones] or [dict(s, at='bottom')]
+            if ones: R.label('boundary:below-single-block-columns:%s' % ('boundary-block-first' if s['first'] else 'boundary-block-second'))
+        else: expanded.append(s)
+    for k, s in enumerate(expanded):
+        nm = 'Q%s%2d' % ('qz' if k < 10 else 'qy', 90 + k % 10)
         if nm in grid.block: continue
         idx = s['idx']
         if s['at'] == 'bottom':
